@@ -4,8 +4,7 @@ from harness import cxx_run as X
 
 class C01(ProgProp):
     id = 'C01'
-    theorems = ['C01.env_to_comp_mts_provides', 'C01.env_to_comp_sts', 'C01.comp_to_env_mts_provides',
-                'C01.requires_out_posted_then_delivered', 'C01.args_declared_order', 'C01.store_after_assigns']
+    theorems = ['C01.store_after_assigns', 'C01.env_to_comp_mts_provides', 'C01.env_to_comp_sts', 'C01.comp_to_env_mts_provides', 'C01.requires_out_posted_then_delivered', 'C01.lambdaParams_names', 'C01.args_declared_order']
     proof_modules = ['DznProofs.C01']
     level_rule = ('compiled programs: real generator output + mock runtime; models with ports sharing an interface, '
                   '0-5 events x 0-3 formals (in/out/inout), valued in-events, multi-client ports, namespace nesting; '
